@@ -216,6 +216,11 @@ def library_doc(rng, chains, compressed=False, all_images=False):
     objs[n + 1] = {"Type": Name("Font"), "Subtype": Name("TrueType"), "BaseFont": Name("Arial"), "FontDescriptor": Ref(990)}
     objs[n + 2] = {"Type": Name("Catalog"), "Pages": Ref(990)}
     objs[n + 3] = [Ref(n), Ref(990), 7]
+    # objects whose VALUE is a bare reference (`N 0 obj 5 0 R endobj`), singly and as a chain of two: loaded as Primitive the
+    # answer is the reference itself, loaded as a dictionary / font / catalog the reference is followed — every order of those loads
+    objs[n + 4] = Ref(5)
+    objs[n + 5] = Ref(n + 4)
+    objs[n + 6] = Ref(1)
     if compressed:
         entries = {}
         for num, v in objs.items():
